@@ -13,15 +13,15 @@ VERIF = os.path.dirname(os.path.dirname(os.path.abspath(__file__)))
 CHECKS = {
     'C01': dict(level='exploration', ref='4/C01',
                 technique='runtime monitoring: differential oracle (hashlib/hmac/pbkdf2, GF(2) polynomial division) over ASan+UBSan-instrumented executions of the real alg/*.c',
-                text='Real alg/*.c objects run under ASan+UBSan on every length 0..600 x 3 update partitions, every HMAC key length 0..200, every PBKDF2 dkLen 1..200, every CRC32C (length 0..80, alignment 0..15), random cases and two >2^32-bit streams per hash (chunked and one single update >= 2^29 bytes); each result is compared with an independent implementation. Sampling, not proof: lengths beyond 64 KiB are covered by the long streams only.',
+                text='Real alg/*.c objects run under ASan+UBSan on every length 0..600 x 3 update partitions, every HMAC key length 0..200, every PBKDF2 dkLen 1..200, every CRC32C (length 0..80, alignment 0..15), random cases, two >2^32-bit streams per hash (chunked and one single update >= 2^29 bytes), PBKDF2 outputs beyond 255/511 blocks, overlapping arguments (digest / tag / derived key written over the message, the key, the salt or the password, in-place chains) where the unchanged library supports them, and ONE call of 2^32+d bytes (SHA-1, SHA-256, CRC32C in quick; every algorithm in thorough) over address ranges in which one 2 MiB memory file is mapped 2049 times; four builds (as the CPU allows, portable, 32-bit SSE4.2 CRC loop, SSE2 SHA-256); each result is compared with an independent implementation. Sampling, not proof: lengths beyond 64 KiB are covered by the long streams only.',
                 note='Trusts Python hashlib/hmac (OpenSSL) as the specification; gcc 12 ASan/UBSan.'),
     'C02': dict(level='exploration', ref='4/C02',
                 technique='runtime monitoring: differential against an independent byte-oriented FIPS-197 / SP 800-38A reference (harness/common/refaes.c, self-checked on the FIPS vectors, spot-checked with openssl enc) under ASan+UBSan, AES-NI build and OpenSSL-software build; long streams really run across blocks 256 and 65536; far-offset streams are positioned with the LIBCPERCIVA_VERIF hook crypto_aesctr_verif_seek at block 2^e - d (e = 8..56) and cross 2^e with bulk, sub-block and 0-length calls, judged at the absolute block index; in every other case the library\'s key and stream objects are allocated 8 mod 16 (misaligning allocator under the library)',
-                text='Seeded random and planned workload: key/block pairs, CTR streams under 3 partitions each (0-length, sub-block and multi-block calls), crypto_aesctr_buf, in-place, encrypt-twice, init2 re-use with and without a new key, streams of >300 and >70,000 blocks (2^24 in thorough) cut around blocks 255/256/65535/65536 on both the incremental and the bulk path, and an exhaustive grid of 317 far-offset streams per build (7 boundaries x 9 start offsets x 5 crossing kinds + one 300..1300-block call per boundary).',
+                text='Seeded random and planned workload: key/block pairs, CTR streams under 3 partitions each (0-length, sub-block and multi-block calls), crypto_aesctr_buf, in-place, encrypt-twice, init2 re-use with and without a new key, streams of >300 and >70,000 blocks (2^24 in thorough) cut around blocks 255/256/65535/65536 on both the incremental and the bulk path, an exhaustive grid of 317 far-offset streams per build (7 boundaries x 9 start offsets x 5 crossing kinds + one 300..1300-block call per boundary), ONE crypto_aesctr_stream call of 2^32+d bytes followed by short calls, an AES-NI implementation that is wrong for one key size only (the start-up self-test must notice and fall back), and allocation-failure histories in fresh processes (each allocation attempt of six key/stream histories refused once: what is produced must be right, what fails must report failure).',
                 note='Keys, nonces and partitions are sampled. Carries above block 2^16 rely on the seek hook (it sets the byte counter and counter block as after n whole blocks; nothing streams that far except a real 2^24-block stream in thorough). Streams stay below block 2^60 (the library\'s 64-bit byte position); block 2^64 is not defined by the statement. Inconclusive if the AES-NI build does not select AES-NI.'),
     'C03': dict(level='exploration', ref='4/C03',
-                technique='runtime monitoring of build variants: the alg/crypto objects compiled in every subset of {SHANI+SSSE3, SSE2, SSE42 32/64, AESNI}, with run-time detectors substituted to answer "absent", without CPUID (39 builds), plus 10 "self-test fails" variants in which the CPU reports the feature but the library\'s own start-up self-test of the implementation is made to fail once through the --wrap wrapper (49 configurations); one seeded workload, N-way comparison plus references; --wrap call counters prove which implementation ran and that a disabled implementation is never used afterwards; far-offset AES-CTR streams positioned with the LIBCPERCIVA_VERIF seek hook; in every other case the library\'s key and stream objects are allocated 8 mod 16',
-                text='All 49 configurations executable on this host are enumerated. Inputs are sampled: alignments 0..15; lengths and partitions around the 8/16/64-byte thresholds; AES-CTR streams already in use containing one call of 256..1248 whole blocks followed by sub-block calls, 0-length calls and a tail; one bulk call crossing block 65536; the complete far-offset grid (7 boundaries 2^8..2^56 x 9 offsets x 5 crossing kinds + 7 big calls = 317 streams, 15,533 answers per quick run). Every answer is compared with hashlib/hmac, the CRC algebra and the AES reference and with every other variant. A "Disabling ..." warning is a violation except in the self-test-fails variants, where any call of the disabled implementation after the warning is a violation.',
+                technique='runtime monitoring of build variants: the alg/crypto objects compiled in every subset of {SHANI+SSSE3, SSE2, SSE42 32/64, AESNI}, with run-time detectors substituted to answer "absent", without CPUID (39 builds), plus 10 "self-test fails" variants in which the CPU reports the feature but the library\'s own start-up self-test of the implementation is made to fail once through the --wrap wrapper (49 configurations), plus 4 variants in which the AES-NI implementation is persistently wrong for one key size or round count only; one seeded workload, N-way comparison plus references; --wrap call counters prove which implementation ran and that a disabled implementation is never used afterwards; far-offset AES-CTR streams positioned with the LIBCPERCIVA_VERIF seek hook; in every other case the library\'s key and stream objects are allocated 8 mod 16',
+                text='All 49 configurations executable on this host are enumerated. Inputs are sampled: alignments 0..15; lengths and partitions around the 8/16/64-byte thresholds; AES-CTR streams already in use containing one call of 256..1248 whole blocks followed by sub-block calls, 0-length calls and a tail; one bulk call crossing block 65536; the complete far-offset grid (7 boundaries 2^8..2^56 x 9 offsets x 5 crossing kinds + 7 big calls = 317 streams, 15,533 answers per quick run); one CRC32C_Update call of 2^32+d bytes on one variant per CRC situation (thorough: every variant, plus SHA-256 and AES-CTR single 4 GiB calls per situation); fail-then-retry allocation histories of the AES interface in 160 fresh processes. Every answer is compared with hashlib/hmac, the CRC algebra and the AES reference and with every other variant. A "Disabling ..." warning is a violation except in the self-test-fails variants, where any call of the disabled implementation after the warning is a violation.',
                 note='ARM paths cannot run on this host. A variant whose intended path never ran (or whose forbidden path ran) makes the result inconclusive, never a pass. The failed self-test is simulated in the harness; the CPU is not faulty. Counters above 2^16 blocks rely on the seek hook; the 2^64 wrap is not exercised.'),
     'C04': dict(level='exploration', ref='4/C04',
                 technique='runtime monitoring: trace checker (vlib/evtrace.py rule set C04) over the API-boundary event log of random register/cancel/reset programs run by the real event loop on a simulated kernel (interposed poll/clock_gettime), invariant hook of events_network.c at every callback and poll entry, ASan+UBSan with real and pass-through pool',
